@@ -62,10 +62,10 @@ CHECKS.update({
         note="Not decided: that core::fmt renders the value's digits (trusted std), upper-case acceptance. n in 0..8 / 0..12."),
     "C12": dict(cat="other", ref="3 C12", technique="lane abstraction: conditions/results of the 32-lane cube code are shown to be uniform per-lane predicates/functions and compared with the semantic specification on every non-empty set of lane values; shift constructors by bitflow in 32-bit word mode",
         text="value, is_zero/is_one/is_constant, implies, intersects, all four & forms, from_mask and derived equality are exact for all canonical cubes at once (32 lanes, symbolic), contradictory products are the one canonical zero; minterm is exact for every num_vars in 0..=32 with a symbolic assignment; nth_var/nth_var_inv/one/zero as specified.",
-        note="Not decided: implies_lut, literal/gate counts, Cube::all and from_vars (iterator chains / slices of runtime length). Inputs are canonical cubes (fields private; every analysed constructor returns canonical cubes). Trusted lemma: containment of literal sets is implication for canonical cubes."),
+        note="Counts, literal iterators, from_vars, implies_lut (n<=2) and Cube::all (n<=3) are decided on variable windows only (small-domain evaluation of the summaries). Inputs are canonical cubes (fields private; every analysed constructor returns canonical cubes). Trusted lemma: containment of literal sets is implication for canonical cubes."),
     "C13": dict(cat="other", ref="3 C13", technique="bitflow with xor-sum bit values for Ecube (all 32 lanes); " + OPQ + " for Soes",
         text="Ecube::value is the parity of (vars & m) xor the flag for all 2^32 terms and assignments; ^ and ! act field-wise in all 6 forms; constants, single-variable terms, is_zero/is_one exact; equality derived over a canonical representation. Soes (0..3 symbolic terms): value is the OR over all terms, all four | forms keep every term of both operands, conversion to Lut tabulates value (n<=3), is_zero only for the empty form, is_one only when a term is the constant one.",
-        note="Not decided: Ecube::all enumerates all 2^(n+1) terms. Containers analysed for lengths 0..3 (length-generic loops)."),
+        note="Ecube::all decided for n<=3 (folded), counts/vars/from_vars/implies_lut on variable windows. Containers analysed for lengths 0..3 incl. repeated and shared terms (length-generic loops)."),
     "C14": dict(cat="other", ref="3 C14", technique=OPQ + " (value, products, is_zero, implies, == opaque); per-path comparison with the specification of simplification, union, product, complement; Lut->Sop on symbolic tables",
         text="value is the OR of all cubes; every form of | and & runs the simplification last on the container it returns; | keeps all cubes, & forms all pairwise products; simplification drops exactly zero cubes, sorts+dedups, and keeps a cube iff it implies no other cube (receiver/argument roles); complement is the De Morgan fold from the constant one with inverted literals; Lut->Sop emits exactly the minterms (n<=2 quick, 3 thorough); is_zero/is_one sound.",
         note="Not decided: that absorption preserves the function (trusted lemma), sort/dedup themselves (std, recorded as events). Lengths 0..3."),
